@@ -18,6 +18,7 @@ DB :: distinct bool;
 DS1 :: distinct S1;
 DA1 :: distinct [2]u8;
 DA2 :: distinct [2]u8;
+DU :: distinct u32;
 A :: enum { X: i32, Y };
 B :: enum { X: i32, Y };
 AS :: enum { P: S1, Q: S2 };
@@ -130,7 +131,11 @@ def make_cell(i, spec):
         L, R, op, verdict, val = spec["L"], spec["R"], spec["op"], spec["verdict"], spec["val"]
         body = [f"l{i} : {L} = {spec['linit']};", f"q{i} : {R} = {spec['rinit']};"] if R != "literal" else [f"l{i} : {L} = {spec['linit']};"]
         rhs = f"q{i}" if R != "literal" else spec["rinit"]
-        if op in ("==", "!=", "<"):
+        if op == "+=":
+            body.append(f"l{i} += {rhs};")
+            if spec["pr"]:
+                body.append(f'printf("%ld\\n", {spec["pr"].format(v=f"l{i}")});')
+        elif op in ("==", "!=", "<"):
             body.append(f"r{i} : bool = l{i} {op} {rhs};")
             body.append(f'printf("%ld\\n", i64.(r{i}));')
         else:
@@ -163,11 +168,22 @@ def all_specs(thorough):
     for src, dst, init, pr, val in casts:
         specs.append({"k": "cast", "src": src, "dst": dst, "init": init, "pr": pr, "val": val, "cls": "cast"})
     bins = [("D1", "D1", "+", "accept", "D1.(7)", "D1.(3)", "i64.(i32.({v}))", "10"), ("D1", "D2", "+", "reject", "D1.(7)", "D2.(3)", "i64.(i32.({v}))", None),
-            ("D1", "literal", "+", "accept", "D1.(7)", "3", "i64.(i32.({v}))", "10"), ("D1", "i32", "+", "either", "D1.(7)", "3", "i64.(i32.({v}))", None),
+            ("D1", "literal", "+", "accept", "D1.(7)", "3", "i64.(i32.({v}))", "10"),
             ("D1", "D2", "==", "reject", "D1.(7)", "D2.(7)", None, None), ("D1", "D1", "==", "accept", "D1.(7)", "D1.(7)", None, "1"),
             ("D1", "D1", "<", "accept", "D1.(-7)", "D1.(3)", None, "1"),
             ("S1", "S2", "==", "reject", "S1.{ a = 7, b = 1 }", "S2.{ a = 7, b = 1 }", None, None), ("S1", "S1", "==", "accept", "S1.{ a = 7, b = 1 }", "S1.{ a = 7, b = 1 }", None, "1"),
             ("DB", "bool", "&&", "either", "DB.(true)", "true", None, None), ("A.X", "B.X", "==", "reject", "A.X.(7)", "B.X.(7)", None, None)]
+    # a distinct value and a strongly typed value of its underlying type never mix (both orders, signed and unsigned)
+    for D, U in (("D1", "i32"), ("DU", "u32")):
+        for op in ("+", "*", "==", "<"):
+            bins.append((D, U, op, "reject", f"{D}.(7)", "3", None, None))
+            bins.append((U, D, op, "reject", "3", f"{D}.(7)", None, None))
+    bins.append(("DU", "u32", "+=", "reject", "DU.(7)", "3", None, None))
+    bins.append(("D1", "i32", "+=", "reject", "D1.(7)", "3", None, None))
+    bins.append(("u32", "DU", "+=", "reject", "3", "DU.(7)", None, None))
+    bins.append(("DU", "DU", "+=", "accept", "DU.(7)", "DU.(3)", "i64.(u32.({v}))", "10"))
+    bins.append(("DU", "DU", "+", "accept", "DU.(7)", "DU.(3)", "i64.(u32.({v}))", "10"))
+    bins.append(("DU", "literal", "*", "accept", "DU.(7)", "3", "i64.(u32.({v}))", "21"))
     for L, R, op, verdict, li, ri, pr, val in bins:
         specs.append({"k": "binary", "L": L, "R": R, "op": op, "verdict": verdict, "linit": li, "rinit": ri, "pr": pr, "val": val, "cls": "binary"})
     return specs
